@@ -147,14 +147,14 @@ RESOLVER = {
     "C01": {"inv": ["C01"], "reps": (3, 6), "family": "C01",
             "random": [("general", 2500, 25000), ("wild", 1500, 15000), ("single", 800, 8000), ("multi", 800, 8000),
                        ("redef", 400, 5000), ("convert", 400, 5000)]},
-    "C02": {"inv": ["C02"], "reps": (3, 6), "family": "C02",
+    "C02": {"inv": ["C02"], "reps": (3, 6), "family": "C02", "life": True,
             "random": [("general", 2500, 25000), ("multi", 2000, 20000), ("nosub", 1000, 10000), ("convert", 500, 6000)]},
     "C03": {"inv": ["C03"], "reps": (4, 10), "family": "C03", "random": [("general", 1500, 15000), ("wild", 1000, 10000)]},
-    "C04": {"inv": ["C04"], "reps": (3, 6), "family": "C04",
+    "C04": {"inv": ["C04"], "reps": (3, 6), "family": "C04", "life": True,
             "random": [("fail", 3500, 35000), ("wild", 1000, 10000), ("redef", 300, 3000)]},
     "C05": {"inv": ["C05"], "reps": (5, 12), "family": "C05",
             "random": [("single", 2500, 25000), ("multi", 1500, 15000), ("general", 1000, 10000)]},
-    "C06": {"inv": ["C06"], "reps": (3, 6), "family": "C06",
+    "C06": {"inv": ["C06"], "reps": (3, 6), "family": "C06", "life": True,
             "random": [("wild", 3000, 30000), ("general", 1500, 15000), ("multi", 1000, 10000), ("redef", 500, 5000),
                        ("convert", 500, 5000)]},
     "C07": {"inv": ["C07"], "reps": (25, 100), "family": "C07", "random": [("general", 300, 3000)], "model": (200, 2000)},
@@ -244,6 +244,88 @@ def conformance(model, real, ev):
     return drift
 
 
+def life_stage(w, prop, invariants, tier, seed, ev):
+    """Histories of Call / Convert / Redefine steps on shared objects: enumerated by TLC (Lifecycle.tla),
+    replayed by the harness on one set of real objects per history, judged by ContractTrace."""
+    import re
+    q = tier == "quick"
+    consts = {"MaxLen": "2" if q else "3", "Size": "1" if q else "2"}
+    # the abstract life cycle (memo / execution counts) without VIEW
+    write_cfg(w, "L_abs.cfg", "Spec", ["OnceAtMostOnce"], constants={"MaxLen": "2", "Size": "2"}, post=None, alias=None, props=["RedefinePure"])
+    res = w.tlc("Lifecycle.tla", "L_abs.cfg", workers=vlib.NCPU, timeout=900)
+    ev.add_tlc("lifecycle-abstract", res, "model_checking")
+    if not res["ok"]:
+        raise Infra("Lifecycle model checking failed:\n" + res["out"][-2500:])
+    write_cfg(w, "L_enum.cfg", "Spec", ["EmitHist"], constants=consts, post=None, alias=None, extra="VIEW HView")
+    res = w.tlc("Lifecycle.tla", "L_enum.cfg", workers=vlib.NCPU, timeout=1800)
+    ev.add_tlc("lifecycle-enumeration", res, "model_checking")
+    outs = [res["out"]]
+    if q:  # plus a sample of longer histories
+        write_cfg(w, "L_sim.cfg", "Spec", ["EmitHist"], constants={"MaxLen": "4", "Size": "2"}, post=None, alias=None)
+        sim = w.tlc("Lifecycle.tla", "L_sim.cfg", workers=1, timeout=600, simulate="num=12", extra=["-depth", "5", "-seed", str(seed)])
+        ev.add_tlc("lifecycle-simulation", sim, "simulation")
+        outs.append(sim["out"])
+    origs, twins = {}, {}
+    for out in outs:
+        for ln in out.splitlines():
+            m = re.match(r'<<"HIST", "(.*)">>$', ln.strip())
+            if not m:
+                continue
+            h = json.loads(json.loads('"' + m.group(1) + '"'))
+            key = json.dumps([h["convs"], [dict(st, op="redefine" if st["op"] == "skip" else st["op"]) for st in h["steps"]]], sort_keys=True)
+            (twins if h["twinOf"] else origs)[key] = h
+    hists = []
+    for key, h in origs.items():
+        h["hid"] = len(hists) + 1
+        hists.append(h)
+        if key in twins:
+            t = twins[key]
+            t["hid"] = len(hists) + 1
+            hists.append(t)
+    if not hists:
+        raise Infra("TLC emitted no histories:\n" + outs[0][-2000:])
+    vlib.write_json(w.path("histories.json"), hists)
+    r = w.run_drive(["life", "-in", "histories.json", "-reps", "1" if q else "2", "-seed", str(seed), "-out", "life.ndjson"], timeout=3000)
+    log(r.stderr.strip())
+    ev.cov.setdefault("histories", 0)
+    ev.cov["histories"] += len(hists)
+    ev.sample({"history": {k: hists[min(7, len(hists) - 1)][k] for k in ("convs", "steps", "twinOf")}})
+    return trace_validate(w, prop, invariants, "life.ndjson", ev, label="histories")
+
+
+def run_life(prop, tier, seed, keep=False):
+    ev = Evidence(prop, tier, seed)
+    inv = {"C09": ["C09", "C09twin", "C06", "C01"], "C11": ["C11", "C04", "C01", "C06"]}[prop]
+    with Work(keep) as w:
+        w.build()
+        rc = life_stage(w, prop, inv, tier, seed, ev)
+        if rc == 0 and prop == "C09":
+            # Redefine inside ordinary scenarios (random redefine scenarios, follow-up call included)
+            n = 1500 if tier == "quick" else 20000
+            w.run_drive(["gen", "-profile", "redef", "-n", str(n), "-seed", str(seed), "-out", "scenarios.json"])
+            w.run_drive(["gen", "-profile", "wild", "-n", str(n), "-seed", str(seed + 3), "-sid0", str(n + 1), "-out", "scenarios2.json"])
+            allscn = json.load(open(w.path("scenarios.json"))) + [x for x in json.load(open(w.path("scenarios2.json"))) if x["mode"] == "redefine"]
+            vlib.write_json(w.path("scenarios.json"), allscn)
+            r = w.run_drive(["run", "-in", "scenarios.json", "-reps", "3", "-seed", str(seed), "-out", "trace.ndjson"])
+            log(r.stderr.strip())
+            summarize_trace(w.path("trace.ndjson"), ev, "")
+            rc = trace_validate(w, prop, ["C09", "C06"], "trace.ndjson", ev, label="redefine-scenarios")
+        if rc == 0 and prop == "C11":
+            rc = once_stage(w, tier, seed, ev)
+        ev.cov["exhaustive"] = True
+        ev.cov["distinct_nontrivial"] = max(ev.cov.get("distinct_nontrivial", 0), ev.cov.get("histories", 0))
+        ev.cov["rule"] = ("every history of Call / Convert / Redefine steps up to the bound over the pool of Lifecycle.tla (TLC enumeration), "
+                          "each replayed on one set of real shared objects; histories containing Redefine are replayed again without those "
+                          "steps (twin) and must produce identical executions and results; distinct_nontrivial = number of histories")
+        ev.doc["assumptions"] = ["the pool of Lifecycle.tla has unique derivations, so a history and its twin are comparable step by step"]
+        ev.write()
+    return rc
+
+
+def once_stage(w, tier, seed, ev):
+    return 0
+
+
 def run_resolver(prop, tier, seed, keep=False):
     spec = RESOLVER[prop]
     ev = Evidence(prop, tier, seed)
@@ -289,6 +371,9 @@ def run_resolver(prop, tier, seed, keep=False):
             w.run_drive(["run", "-in", "amp.json", "-reps", str(reps * 20), "-seed", str(seed + 1), "-out", "amp.ndjson"])
             ev.cov["conformance"]["amplified_executions"] = len(amp) * reps * 20
             rc = trace_validate(w, prop, spec["inv"], "amp.ndjson", ev, label="amplified")
+        if spec.get("life") and rc == 0:
+            # the same invariants over histories of calls on shared objects (memoized converters, reused functions)
+            rc = life_stage(w, prop, spec["inv"], tier, seed, ev)
         if mres["violated"] and rc == 0:
             # a design-level counterexample that the real code did not exhibit: no verdict
             ev.cov["unreproduced_model_cex"] = mres["violated"]
@@ -524,7 +609,8 @@ def main():
         return 2
 
 
-EXTRA = {"C18": run_c18, "C19": run_c19, "C20": run_c20}
+EXTRA = {"C18": run_c18, "C19": run_c19, "C20": run_c20,
+         "C09": lambda t, s, k: run_life("C09", t, s, k), "C11": lambda t, s, k: run_life("C11", t, s, k)}
 
 if __name__ == "__main__":
     sys.exit(main())
